@@ -44,6 +44,7 @@ type Program struct {
 	Notes       []string
 	Normalized  map[string][]byte
 	InlinedAway []string
+	Renamed     []string
 	allFuncs    []*ssa.Function
 }
 
@@ -360,7 +361,25 @@ func LoadNormalized(repo string, patterns []string, overlay map[string][]byte, k
 	for k, v := range overlay {
 		cur[k] = v
 	}
-	// pass 0: parameters of known functions get their reference names back
+	// pass 0a: renamed functions get their reference names back
+	if rf := norm.RenameFuncs(p.Fset, p.Pkgs, known, cur); len(rf.Overlay) > 0 {
+		next := map[string][]byte{}
+		for k, v := range cur {
+			next[k] = v
+		}
+		for k, v := range rf.Overlay {
+			next[k] = v
+		}
+		if q, err := Load(repo, patterns, next); err == nil {
+			q.Renamed = rf.Inlined
+			q.Normalized = next
+			p, cur = q, next
+		} else {
+			p.Notes = append(p.Notes, "function renaming abandoned (rewritten source does not load): "+firstLine(err.Error()))
+		}
+	}
+	renamed := p.Renamed
+	// pass 0b: parameters of known functions get their reference names back
 	if rn := norm.RenameParams(p.Fset, p.Pkgs, known, cur); len(rn.Overlay) > 0 {
 		next := map[string][]byte{}
 		for k, v := range cur {
@@ -373,6 +392,7 @@ func LoadNormalized(repo string, patterns []string, overlay map[string][]byte, k
 			q.Inlined = rn.Inlined
 			q.Skipped = rn.Skipped
 			q.Normalized = next
+			q.Renamed = renamed
 			p, cur = q, next
 		} else {
 			p.Notes = append(p.Notes, "parameter renaming abandoned (rewritten source does not load): "+firstLine(err.Error()))
@@ -406,6 +426,7 @@ func LoadNormalized(repo string, patterns []string, overlay map[string][]byte, k
 		q.Skipped = p.Skipped
 		q.NewFuncs = p.NewFuncs
 		q.Notes = p.Notes
+		q.Renamed = p.Renamed
 		q.Normalized = next
 		p, cur = q, next
 	}
